@@ -155,18 +155,18 @@ def specs_for(tier):
         list(all_digraphs(3)), ["LLL"], [("all", "all")], ("perms",))
   else:
     add("n=1 x kinds x 25 dir pairs", 1, list(all_digraphs(1)), list(KINDS), cross)
-    add("n=2 x all 4 digraphs x kinds^2 x 25 dir pairs x all request permutations", 2, list(all_digraphs(2)),
-        list(itertools.product(KINDS, repeat=2)), cross, ("perms",))
+    add("n=2 x all 4 digraphs x kinds^2 x 5 diagonal dir schemes x all request permutations", 2,
+        list(all_digraphs(2)), list(itertools.product(KINDS, repeat=2)), diag, ("perms",))
+    add("n=2 x all 4 digraphs x LL x 20 off-diagonal dir pairs", 2, list(all_digraphs(2)),
+        ["LL"], [d for d in cross if d[0] != d[1]])
     add("n=3 x all 64 digraphs x kinds^3 (125) x dirs(all,all)", 3, list(all_digraphs(3)),
         list(itertools.product(KINDS, repeat=3)), [("all", "all")])
-    add("n=3 x all 64 digraphs x LLL x 24 other dir pairs", 3, list(all_digraphs(3)),
-        ["LLL"], [d for d in cross if d != ("all", "all")])
+    add("n=3 x all 64 digraphs x LLL x 4 other diagonal dir schemes", 3, list(all_digraphs(3)),
+        ["LLL"], [d for d in diag if d[0] != "all"])
     add("n=3 x all 64 digraphs x {L,S}^3 x dirs(all,all) x all request permutations", 3,
         list(all_digraphs(3)), list(itertools.product("LS", repeat=3)), [("all", "all")], ("perms",))
-    add("n=4 x all 4096 digraphs x LLLL x dirs(all,all) x requests ascending and descending", 4,
-        list(all_digraphs(4)), ["LLLL"], [("all", "all")], ("asc", "desc"))
-    add("n=4 x all 4096 digraphs x SPLS x dirs(all,all)", 4, list(all_digraphs(4)),
-        ["SPLS"], [("all", "all")])
+    add("n=4 x all 4096 digraphs x LLLL x dirs(all,all)", 4,
+        list(all_digraphs(4)), ["LLLL"], [("all", "all")])
     for name, n, es in family_graphs((5, 6)):
       add("ring / ring+tail / two rings / two rings sharing a module on 5-6 modules, both labellings "
           "x {all L, LPSLPS, all S} x dirs(all,all) x requests ascending and descending", n, [es],
